@@ -4,6 +4,8 @@ package config
 
 import (
 	"fmt"
+	"os"
+	"path/filepath"
 	"strings"
 	"sync"
 
@@ -14,7 +16,7 @@ import (
 
 // C04SParams: one setter against getter refreshes in other goroutines.
 type C04SParams struct {
-	Setter  string // set2 (SetConfigOption v1 then v2), setdefault, replace (ReplaceConfig of two options), release (user value of a beta option becomes visible by a release level change), unset (set then nil)
+	Setter  string // two-setters (two goroutines set the same option with persistence configured; afterwards the file must hold the value in memory), set2 (SetConfigOption v1 then v2), setdefault, replace (ReplaceConfig of two options), release (user value of a beta option becomes visible by a release level change), unset (set then nil)
 	Safe    int    // goroutines sharing ONE Concurrent getter closure, each calling it twice
 	Plain   bool   // one goroutine with its own plain getter closure, calling it twice
 	Created string // getter closures created "before" the first set or "between" (after the first set returned)
@@ -117,10 +119,15 @@ func VerifC04S(p C04SParams) *vsched.Scenario {
 				}
 				return nil
 			}}}
+		case "two-setters":
 		case "release":
 			steps = []step{{5, func() error { return SetConfigOption(releaseLevelKey, ReleaseLevelNameBeta) }}, {1, func() error { return SetConfigOption(releaseLevelKey, ReleaseLevelNameStable) }}}
 		default:
 			panic("unknown setter " + p.Setter)
+		}
+		if p.Setter == "two-setters" {
+			c04twoSetters(s, key)
+			return
 		}
 		var safeGet, plainGet IntOption
 		mk := func() {
@@ -263,5 +270,69 @@ func c04judge(s *c04state, initial int64) {
 			}
 			c04fail("getter-observes-completed-set", cls+"/"+strings.TrimRight(c.who, "0123456789"), "getter call %s returned %d; allowed at that moment: %v\n%s", c.who, c.val, allowed, desc())
 		}
+	}
+}
+
+var c04dir string
+
+// c04twoSetters: two goroutines set the same option while persistence is configured. When both have returned, the
+// configuration file holds exactly the user values that are in memory (loading it again restores the same values).
+func c04twoSetters(s *c04state, key string) {
+	if c04dir == "" {
+		base := "/dev/shm"
+		if _, err := os.Stat(base); err != nil {
+			base = os.TempDir()
+		}
+		d, err := os.MkdirTemp(base, "verif-c04s-")
+		if err != nil {
+			c04fail("harness", "tmpdir", "%v", err)
+			return
+		}
+		c04dir = d
+	}
+	configFilePath = filepath.Join(c04dir, "config.json")
+	_ = os.Remove(configFilePath)
+	vsched.Explore(true)
+	var wg sync.WaitGroup
+	for _, v := range []int{2, 3} {
+		v := v
+		wg.Add(1)
+		go func() {
+			defer wg.Done()
+			vsched.Point("set")
+			vsched.Emit(fmt.Sprintf("set-call:%d", v))
+			if err := SetConfigOption(key, v); err != nil {
+				c04fail("harness", "set-failed", "%v", err)
+			}
+			vsched.Emit(fmt.Sprintf("set-ret:%d", v))
+		}()
+	}
+	wg.Wait()
+	vsched.Explore(false)
+	mem := Concurrent.GetAsInt(key, -1)()
+	if mem != 2 && mem != 3 {
+		c04fail("getter-observes-completed-set", "value-never-current/after", "after SetConfigOption(2) and SetConfigOption(3) returned the getter returns %d", mem)
+	}
+	data, err := os.ReadFile(configFilePath)
+	if err != nil {
+		c04fail("save-load-restores-user-values", "file-missing", "both setters returned, reading the configuration file: %v", err)
+		return
+	}
+	vals, err := JSONToMap(data)
+	if err != nil {
+		c04fail("save-load-restores-user-values", "file-unparsable", "configuration file %q: %v", data, err)
+		return
+	}
+	fv, ok := vals[key].(float64)
+	if !ok || int64(fv) != mem {
+		c04fail("save-load-restores-user-values", "file-differs-from-memory", "both setters returned: the user value in memory is %d, the configuration file holds %v (file: %s)", mem, vals[key], strings.Join(strings.Fields(string(data)), " "))
+	}
+	vsched.Emit(fmt.Sprintf("final:%d", mem))
+}
+
+// VerifC04SCleanup removes the scratch directory.
+func VerifC04SCleanup() {
+	if c04dir != "" {
+		_ = os.RemoveAll(c04dir)
 	}
 }
